@@ -838,4 +838,26 @@ theorem verifyFileChecksums_encFile (ck : Bytes → Nat → Nat) (f : RelFile) (
 
 end Enc
 
+/-- the closed form depends on the checksum function only through its values on 8192-byte pages -/
+theorem fileResult_congr (ck ck' : Bytes → Nat → Nat) (data : Bytes) (seg : Nat)
+    (h : ∀ page bn, page.length = 8192 → ck page bn = ck' page bn) :
+    fileResult ck data seg = fileResult ck' data seg := by
+  have he : ∀ i, i ∈ List.range (data.length / 8192) →
+      pageError ck (blockNum seg i) (chunk data i) = pageError ck' (blockNum seg i) (chunk data i) := by
+    intro i hi
+    have hi' : i < data.length / 8192 := List.mem_range.mp hi
+    have hl : (chunk data i).length = 8192 := chunk_length data i (by omega)
+    unfold pageError
+    rw [h _ _ hl]
+  have hf : ((List.range (data.length / 8192)).filterMap fun i => pageError ck (blockNum seg i) (chunk data i)) =
+      ((List.range (data.length / 8192)).filterMap fun i => pageError ck' (blockNum seg i) (chunk data i)) := by
+    generalize List.range (data.length / 8192) = l at he
+    induction l with
+    | nil => rfl
+    | cons a l ih =>
+      simp only [List.filterMap_cons]
+      rw [he a (List.mem_cons_self), ih (fun i hi => he i (List.mem_cons_of_mem _ hi))]
+  unfold fileResult
+  simp only [hf]
+
 end PgVerif.Proofs.ChecksumAcct
